@@ -12,7 +12,7 @@ from ..pgm import Domain, Factor, CliqueVector, fs, brute_joint, marg_of_joint
 from mbi import RegionGraph, FactorGraph
 
 RG_INVS = ["VarCount", "RegionCount", "SetsOK", "BeliefOK", "DBeforeUse"]
-SZ = {"a": 2, "b": 3, "c": 2, "d": 2, "e": 2}
+SZ = {"a": 2, "b": 3, "c": 2, "d": 2, "e": 2, "f": 2, "g": 2}
 
 
 def small_w(n, k):
@@ -161,7 +161,10 @@ def run(ctx, canary=False):
         if r.violated:
             ctx.violation("design-level: %s violated in GBP.tla" % r.violated, {"tlc": r.trace_text()}, {"kind": "design"})
     extra_rip = [[["a", "b", "c"], ["b", "c", "d"], ["c", "d", "e"]], [["a", "b"], ["b", "c"], ["c", "d"], ["d", "e"]],
-                 [["a", "b", "c"], ["a", "b", "d"], ["a", "b", "e"]], [["a", "b", "c", "d"], ["c", "d", "e"]]]
+                 [["a", "b", "c"], ["a", "b", "d"], ["a", "b", "e"]], [["a", "b", "c", "d"], ["c", "d", "e"]],
+                 # four nested region levels: abcd > bcd > cd > d
+                 [["a", "b", "c", "d"], ["b", "c", "d", "e"], ["c", "d", "f"], ["d", "g"]],
+                 [["a", "c", "d", "e"], ["c", "d", "e", "f"], ["d", "e", "g"], ["e", "b"]]]
     for cs in rip_sets + extra_rip:
         attrs = sorted(set().union(*map(set, cs)))
         sz = {a: SZ[a] for a in attrs}
@@ -246,6 +249,12 @@ def run(ctx, canary=False):
             continue
         attrs = sorted(set().union(*map(set, cs)))
         sz = {a: SZ[a] for a in attrs}
+        if sid % 2 == 0:
+            # multi-character attribute names; the clique list and the potentials are built from EQUAL BUT DISTINCT string objects
+            ren = lambda a: "attr_" + a
+            attrs = [ren(a) for a in attrs]
+            sz = {ren(a): v for a, v in sz.items()}
+            cs = [[ren(a) for a in c] for c in cs]
         dom = Domain(attrs, [sz[a] for a in attrs])
         cliques = [tuple(c) for c in cs]
         pots = pots_for(cliques, sz)
@@ -257,7 +266,9 @@ def run(ctx, canary=False):
             ctx.case(("lbp", tuple(cliques), iters, total), nontrivial=len(cliques) >= 2)
             try:
                 fg = FactorGraph(dom, cliques, total=total, convex=False, iters=iters)
-                pv = CliqueVector({c: Factor(dom.project(c), np.log(np.array(p["w"], dtype=float))) for c, p in zip(cliques, pots)})
+                fresh = lambda c: tuple(("%s" % a)[:0] + "".join(list(a)) for a in c)      # new string objects, same text
+                pdom = Domain([fresh((a,))[0] for a in attrs], [sz[a] for a in attrs])
+                pv = CliqueVector({fresh(c): Factor(pdom.project(fresh(c)), np.log(np.array(p["w"], dtype=float))) for c, p in zip(cliques, pots)})
                 per = []
                 with np.errstate(all="ignore"):
                     mu = fg.belief_propagation(pv, callback=lambda m: per.append({c: np.asarray(m[c].values, dtype=float).copy() for c in cliques}))
